@@ -362,6 +362,10 @@ def compile_logical_or_and_and_operator(compiler, expr, operator, args):
 
     if var:
         ret.expr = get(expr)
+    if len(args) > 1:
+        # The first operand's temporary variables aren't the result's:
+        # an enclosing assignment mustn't take one of them for our value.
+        ret.temp_variables = []
     return ret
 
 
